@@ -460,3 +460,79 @@ Proof.
     + cbn [i_sent i_gets perr_code]. rewrite list_eqb_refl. reflexivity.
 Qed.
 
+
+(* ---------- C07: the BLD checker accepts the model's observation of every history of well-formed frames ---------- *)
+Require Import RP.Glue.StreamPacket.
+Lemma bfinger_spec b : wf_builder b -> bfinger b = spec_finger b.
+Proof.
+  intros Hw. destruct (frames_left_spec b Hw) as [Hfl _]. pose proof (b_count_small b Hw) as Hc.
+  destruct (build_spec b Hw) as [Hb1 Hb2].
+  unfold bfinger, spec_finger. rewrite Hc, Hfl. unfold show_out at 1. cbn [nlen length N.of_nat app].
+  destruct (nlen (b_frames b) =? b_exp b) eqn:E.
+  - apply N.eqb_eq in E. rewrite (Hb1 E). reflexivity.
+  - apply N.eqb_neq in E. rewrite (Hb2 E). reflexivity.
+Qed.
+Lemma finger_len_spec b r : finger_len (spec_finger b ++ r) = Some (spec_finger b, r).
+Proof.
+  unfold spec_finger. destruct (nlen (b_frames b) =? b_exp b).
+  - unfold show_out. cbn [app finger_len]. rewrite take_app. reflexivity.
+  - reflexivity.
+Qed.
+Lemma acceptsb_iff b f : acceptsb b f = true <-> accepts b f.
+Proof.
+  unfold acceptsb, accepts. split.
+  - intros H. repeat (apply andb_prop in H; destruct H as [H ?]).
+    apply Bool.eqb_prop in H. repeat split; try lia; try assumption;
+      repeat match goal with Hx: negb _ = true |- _ => apply negb_true_iff in Hx end; assumption.
+  - intros [A1 [A2 [A3 [A4 [A5 [A6 A7]]]]]]. rewrite A1, A3, A4, A5, Bool.eqb_reflx. cbn [negb andb].
+    assert (E1: (f_addr f =? b_addr b) = true) by lia. assert (E2: (f_id f =? nlen (b_frames b)) = true) by lia. assert (E3: (f_id f <? b_exp b) = true) by lia.
+    rewrite E1, E2, E3. reflexivity.
+Qed.
+Lemma berr_of_code e : berr_of (berr_code e) = Some e.
+Proof. destruct e; reflexivity. Qed.
+Lemma push_frame_wf b f : wf_builder b -> wf_frame f = true -> accepts b f -> wf_builder (push_frame b f).
+Proof.
+  intros Hw Hf Ha. pose proof (offer_wf b f Hw Hf) as H. unfold offer in H.
+  rewrite (proj1 (add_frame_accept_iff b f Hw) Ha) in H. exact H.
+Qed.
+
+Lemma bld_walk_accepts_model : forall fs b step, wf_builder b -> forallb wf_frame fs = true -> snd (bld_walk b fs (bld_steps b fs) step) = [].
+Proof.
+  induction fs as [|f fs IH]; intros b step Hw Hfs; [reflexivity|].
+  cbn [forallb] in Hfs. apply andb_prop in Hfs. destruct Hfs as [Hf Hfs].
+  cbn [bld_steps]. destruct (add_frame_no_panic b f) as [Hnp Hnh].
+  destruct (add_frame b f) as [b'|e| |] eqn:Ea; try contradiction.
+  - destruct (proj2 (add_frame_accept_iff b f Hw) b' Ea) as [Hacc ->].
+    pose proof (push_frame_wf b f Hw Hf Hacc) as Hw'.
+    cbn [bld_walk]. rewrite (bfinger_spec _ Hw'), finger_len_spec.
+    assert (Eacc: acceptsb b f = true) by (apply acceptsb_iff; exact Hacc). rewrite Eacc.
+    change (0 =? 0) with true. cbn [andb negb]. rewrite list_eqb_refl. cbn [negb].
+    specialize (IH (push_frame b f) (step + 1) Hw' Hfs).
+    destruct (bld_walk (push_frame b f) fs (bld_steps (push_frame b f) fs) (step + 1)) as [vs bads]. cbn [snd] in *. exact IH.
+  - assert (Eacc: acceptsb b f = false).
+    { destruct (acceptsb b f) eqn:E; [|reflexivity]. apply acceptsb_iff in E. rewrite (proj1 (add_frame_accept_iff b f Hw) E) in Ea. discriminate. }
+    pose proof (add_frame_reject_reason b f e Hw Ea) as Hr.
+    cbn [bld_walk]. rewrite (bfinger_spec _ Hw), finger_len_spec. rewrite Eacc, berr_of_code, Hr.
+    change (1 =? 0) with false. cbn [andb negb]. rewrite list_eqb_refl. cbn [negb].
+    specialize (IH b (step + 1) Hw Hfs).
+    destruct (bld_walk b fs (bld_steps b fs) (step + 1)) as [vs bads]. cbn [snd] in *. exact IH.
+Qed.
+Theorem ok_C07_accepts_model case f0 fs : parse_frames case = Some (f0 :: fs, []) -> ok_C07 case (run_BLD case) = [].
+Proof.
+  intros Hc. unfold ok_C07, bld_eval, run_BLD. rewrite Hc.
+  destruct (forallb wf_frame (f0 :: fs)) eqn:Ew; cbn [negb]; [|reflexivity].
+  cbn [forallb] in Ew. apply andb_prop in Ew. destruct Ew as [Hf0 Hfs].
+  destruct (builder_new_spec f0) as [S1 [_ S3]].
+  destruct (builder_new f0) as [b|e| |] eqn:En.
+  - destruct (S1 b eq_refl) as [Hst [Hla Hb]]. pose proof (builder_new_wf f0 b Hf0 En) as Hw.
+    rewrite Hst, Hla. cbn [andb negb]. rewrite (bfinger_spec b Hw), finger_len_spec. rewrite <- Hb, list_eqb_refl. cbn [negb].
+    pose proof (bld_walk_accepts_model fs b 1 Hw Hfs) as H.
+    destruct (bld_walk b fs (bld_steps b fs) 1) as [vs bads]. cbn [snd] in *. exact H.
+  - destruct (S3 e eq_refl) as [-> Hor]. cbn [berr_code].
+    destruct Hor as [H|H]; rewrite H; cbn [andb]; try rewrite Bool.andb_false_r; reflexivity.
+  - exfalso. unfold builder_new in En. destruct (wf_frame_parts f0 Hf0) as [_ [Hi _]].
+    destruct (negb (f_st f0)); [discriminate|]. destruct (f_last f0); [|discriminate].
+    assert (E: (f_id f0 + 1 <? 65536) = true) by lia. rewrite E in En. discriminate.
+  - exfalso. unfold builder_new in En. destruct (negb (f_st f0)); [discriminate|]. destruct (f_last f0); [|discriminate].
+    destruct (f_id f0 + 1 <? 65536); discriminate.
+Qed.
